@@ -32,7 +32,7 @@ func (check) Cases(tier string) int {
 }
 
 func (check) Rule() string {
-	return "each case fixes one logical call and repeats it over permuted insertion orders of EVERY map in its input (all permutations up to 3 keys, else 8 random ones) x 12 repetitions each, rebuilding all inputs every time; the set of outcome classes (canonical data on success, root error reason on failure) must have size 1. Call kinds: NewFrom of partially flattened trees whose keys overlap after dotted expansion; NewFrom of inputs spelling one setting twice (dotted+nested, dotted below a primitive, dotted list position + list; random pairs of a short key holding primitive/nil/list/object and a dotted key 1-3 name or index segments below it holding a primitive or nil); chains of merges under all policies; one Merge (all policies, VarExp) onto a destination holding references to objects and lists, where the source brings values both for the settings holding the references and for the settings referenced; Unpack (map, struct of strings, per-setting String, FlattenedKeys) of worlds whose settings reference each other (chains, diamonds, repeated uses, cycles absorbed by resolvers, objects). The keyorder hook records the enumeration order the runtime actually used in every loop over a map; a case whose input has a map with >= 2 keys but showed fewer than 2 distinct enumeration schedules earns no credit (inconclusive). Non-trivial = at least 2 distinct schedules observed; distinct = distinct (kind, input). Round 4: every case has a SECOND part with a random stream of its own (so the first part is unchanged), one of four more call kinds: through-reference = NewFrom (PathSep, VarExp, a third with a resolver) of one input map in which a dotted key leads through - or, as control, beside - a setting holding a reference/splice (to nothing, an object, a list, a primitive, itself; held at top level, in an object, in a list); spellings-then-remove = NewFrom of two or three spellings of one namespace among them EMPTY lists/objects and nulls, observed, one spelling removed again, observed again; copy-with-env = a config with references is copied into a second one by Merge of the *Config (at the root or below a name), the copy gets other values for referenced settings, loses references and gains settings naming the lost ones, and is unpacked with the original as Env (original and copy of one reference are evaluated in the same call); failed-unpack-target = Unpack of a config with exactly ONE failing setting into maps the caller owns (typed, nil, pre-filled, nested, inline map of a struct, worlds of references): the outcome is the error class AND what the target holds afterwards. Every successful creation is also observed through Child handles (IsDict/IsArray/number of settings of every namespace)."
+	return "each case fixes one logical call and repeats it over permuted insertion orders of EVERY map in its input (all permutations up to 3 keys, else 8 random ones) x 12 repetitions each, rebuilding all inputs every time; the set of outcome classes (canonical data on success, root error reason on failure) must have size 1. Call kinds: NewFrom of partially flattened trees whose keys overlap after dotted expansion; NewFrom of inputs spelling one setting twice (dotted+nested, dotted below a primitive, dotted list position + list; random pairs of a short key holding primitive/nil/list/object and a dotted key 1-3 name or index segments below it holding a primitive or nil); chains of merges under all policies; one Merge (all policies, VarExp) onto a destination holding references to objects and lists, where the source brings values both for the settings holding the references and for the settings referenced; Unpack (map, struct of strings, per-setting String, FlattenedKeys) of worlds whose settings reference each other (chains, diamonds, repeated uses, cycles absorbed by resolvers, objects). The keyorder hook records the enumeration order the runtime actually used in every loop over a map; a case whose input has a map with >= 2 keys but showed fewer than 2 distinct enumeration schedules earns no credit (inconclusive). Non-trivial = at least 2 distinct schedules observed; distinct = distinct (kind, input). Round 4: every case has a SECOND part with a random stream of its own (so the first part is unchanged), one of five more call kinds: through-reference = NewFrom (PathSep, VarExp, a third with a resolver) of one input map in which a dotted key leads through - or, as control, beside - a setting holding a reference/splice (to nothing, an object, a list, a primitive, itself; held at top level, in an object, in a list); spellings-then-remove = NewFrom of two or three spellings of one namespace among them EMPTY lists/objects and nulls, observed, one spelling removed again, observed again; copy-with-env = a config with references is copied into a second one by Merge of the *Config (at the root or below a name), the copy gets other values for referenced settings, loses references and gains settings naming the lost ones, and is unpacked with the original as Env (original and copy of one reference are evaluated in the same call); failed-unpack-target = Unpack of a config with exactly ONE failing setting into maps the caller owns (typed, nil, pre-filled, nested, inline map of a struct, worlds of references): the outcome is the error class AND what the target holds afterwards. Round 5: merge-field-options = one Merge under 1-3 per-field options (Field{Merge,Replace,Append,Prepend}Values with direct paths, list positions, '*', '**' anywhere, one or two names per option, often a wildcard and a direct spelling for the same name with different policies) next to any global policy, onto operands repeating the configured names at several depths and below several sibling keys. Every successful creation is also observed through Child handles (IsDict/IsArray/number of settings of every namespace)."
 }
 
 func (check) Assumptions() []string {
